@@ -956,6 +956,154 @@ def oracle_graphs(ctx: Ctx) -> None:
                         ctx.report(f"trip:graph-shape:{ser_name}:{name}", f"[{kind}/{ser_name}/threshold {thr}] the value `{name}` ({want[name]}) comes back as {bad}", rep)
 
 
+def oracle_local_copies(ctx: Ctx) -> None:
+    """what the process-local cache of the client data store may and may not do:
+    (a) an INLINE value (below the threshold, or opted out) resolved twice gives two independent objects - a consumer that edits
+        its argument in place must not change what the next equal call receives;
+    (b) after a consumer edited a resolved large value in place, serializing the ORIGINAL content again and resolving the reference
+        gives the original content;
+    (c) a deeply nested value (40 levels) arrives whole, for every serializer."""
+    deep: Any = {"label": 0, "next": None}
+    for k in range(1, 40):
+        deep = {"label": k, "next": deep}
+
+    def depth(v: Any) -> int:
+        n = 0
+        while isinstance(v, dict) and "next" in v:
+            n += 1
+            v = v["next"]
+        return n
+
+    for ser_name in SERIALIZERS:
+        for kind in ("mem", "sqlite"):
+            app = mk(ctx, kind, ser_name, min_size_to_cache=1024, local_cache_size=8)
+            cds = app.client_data_store
+            rep = {"kind": "local-copies", "serializer": ser_name, "backend": kind}
+            # (a) inline, 300-900 characters
+            for n in (60, 150):
+                v = list(range(n))
+                data = cds.serialize(v)
+                ctx.count()
+                ctx.distinct(("inline-twice", ser_name, kind, n))
+                if cds.is_reference(data):
+                    continue
+                first = cds.resolve(data)
+                first.reverse()
+                second = cds.resolve(data)
+                if second != list(range(n)):
+                    ctx.report(f"inline-value-shared-between-resolves:{ser_name}", f"[{kind}/{ser_name}] an inline value ({len(data)} characters) was resolved, reversed in place by its consumer and resolved again: "
+                                                                                   f"the second consumer receives {second[:4]}… instead of {list(range(4))}…", rep)
+            # (b) large value edited in place, then the original content again
+            big = list(range(400))
+            ref = cds.serialize(list(big))
+            if cds.is_reference(ref):
+                cds._deserialized_cache.clear()
+                got = cds.resolve(ref)
+                got.reverse()
+                ref2 = cds.serialize(list(big))
+                again = cds.resolve(ref2)
+                ctx.count()
+                ctx.distinct(("edited-then-original", ser_name, kind))
+                if ref2 != ref or again != big:
+                    ctx.report(f"edited-copy-outlives-fresh-content:{ser_name}", f"[{kind}/{ser_name}] a large value was resolved and reversed in place by its consumer; the original content was then "
+                                                                                 f"serialized again (same reference: {ref2 == ref}) and resolved: {again[:3]}… instead of {big[:3]}…", rep)
+            # (c) 40 levels of nesting through arguments and results
+            task = app.task(T.ident)
+            try:
+                inv = task(deep)
+                app.state_backend.set_result(inv.invocation_id, deep)
+                reader = other_process(app) if kind == "sqlite" else app
+                if kind == "mem":
+                    cds._deserialized_cache.clear()
+                reader.task(T.ident)
+                d_arg = depth(reader.state_backend.get_invocation(inv.invocation_id).call.arguments.kwargs["x"])
+                d_res = depth(reader.state_backend.get_result(inv.invocation_id))
+            except BaseException as e:  # noqa: BLE001
+                d_arg = d_res = f"{type(e).__name__}: {str(e)[:80]}"  # type: ignore[assignment]
+            ctx.count()
+            ctx.distinct(("deep-value", ser_name, kind))
+            if (d_arg, d_res) != (40, 40):
+                ctx.report(f"trip:deep-value:{ser_name}", f"[{kind}/{ser_name}] a value nested 40 levels deep arrives with depth {d_arg} as argument and {d_res} as result", rep)
+
+
+def oracle_same_content_two_writers(ctx: Ctx) -> None:
+    """two workers externalise EQUAL content at the same time on one SQLite file (two results of the same large value).  The store talks
+    to sqlite3 directly, so the interleaving is forced there: both writers meet right before their first writing statement (whatever
+    each has read before is then stale).  Neither may fail, both get the same reference, the content is there."""
+    import importlib
+    import sqlite3 as real_sqlite3
+    import threading
+
+    mod = importlib.import_module("pynenc.client_data_store.sqlite_client_data_store")
+    n = 0
+    for ser_name in ("JsonSerializer", "PickleSerializer"):
+        apps = [mk(ctx, "sqlite", ser_name, min_size_to_cache=64)]
+        apps.append(other_process(apps[0]))
+        for a in apps:
+            _ = a.client_data_store, a.state_backend
+        for rnd in range(3 if ctx.quick else 12):
+            barrier = threading.Barrier(2)
+
+            class MeetBeforeWrite(real_sqlite3.Connection):
+                def execute(self, sql, *a):  # type: ignore[no-untyped-def]
+                    if sql.lstrip().upper().startswith(("INSERT", "UPDATE", "REPLACE", "DELETE")):
+                        try:
+                            barrier.wait(0.5)
+                        except threading.BrokenBarrierError:
+                            pass
+                    return super().execute(sql, *a)
+
+            class Shim:
+                def connect(self, *a, **k):  # type: ignore[no-untyped-def]
+                    k.setdefault("factory", MeetBeforeWrite)
+                    return real_sqlite3.connect(*a, **k)
+
+                def __getattr__(self, name):  # type: ignore[no-untyped-def]
+                    return getattr(real_sqlite3, name)
+
+            payload = {"round": f"{ser_name}-{rnd}-{ctx.rng.randrange(10**9)}", "rows": ["r" * 30] * 10}
+            out: dict = {}
+
+            def body(k: int):
+                def f() -> None:
+                    try:
+                        out[k] = apps[k].client_data_store.serialize(payload)
+                    except BaseException as e:  # noqa: BLE001
+                        out[k] = f"raised {type(e).__name__}: {str(e)[:80]}"
+                return f
+
+            saved = mod.sqlite3
+            mod.sqlite3 = Shim()
+            try:
+                ths = [threading.Thread(target=body(k)) for k in (0, 1)]
+                for t in ths:
+                    t.start()
+                for t in ths:
+                    t.join(20)
+            finally:
+                mod.sqlite3 = saved
+            n += 1
+            ctx.count()
+            ctx.distinct(("same-content-two-writers", ser_name, rnd))
+            ok = out.get(0) == out.get(1) and isinstance(out.get(0), str) and not str(out.get(0)).startswith("raised")
+            if ok:
+                ok = other_process(apps[0]).client_data_store.resolve(out[0]) == payload
+            if not ok:
+                ctx.report("same-content-two-writers:sqlite", f"[sqlite/{ser_name}] two workers externalise equal content at the same time (each reaches its first writing statement before "
+                                                              f"the other has written): {out}", {"kind": "two-writers", "serializer": ser_name})
+                break
+    ctx.notes["same_content_two_writer_rounds"] = n
+
+
+def _has_attr(p: tuple[str, str]) -> bool:
+    import importlib
+
+    try:
+        return hasattr(importlib.import_module(p[0]), p[1])
+    except Exception:  # noqa: BLE001
+        return False
+
+
 def oracle_known_classes(ctx: Ctx) -> None:
     """reserved-prefix strings, aliasing of the caller's object, content addressing, batch path"""
     from pynenc.app import Pynenc
@@ -1128,6 +1276,8 @@ def run(ctx: Ctx) -> None:
     phase("trip oracle", oracle_trip)
     phase("known classes oracle", oracle_known_classes)
     phase("graph values oracle", oracle_graphs)
+    phase("local copies oracle", oracle_local_copies)
+    phase("same content, two writers", oracle_same_content_two_writers)
     phase("foreign purge oracle", oracle_foreign_purge)
     ctx.assumptions += [
         "SHA-256 is a parameter of the model: callId_eq_iff (⇒) assumes no collision on the two pre-hash byte strings, the store theorems no collision on the texts that occur; digests are 64 hex characters",
